@@ -2,14 +2,16 @@ import N0Verif.Proofs.FilesCodec
 /-!
 # C15 — text and bytes saved to a file load back unchanged under every EOL/mode
 
-Only property statements live here; helper lemmas are in `Proofs/Files.lean` and
-`Py/Lemmas.lean` (`replace_roundtrip`).
+Only property statements live here; helper lemmas are in `Proofs/Files.lean`, `Proofs/FilesCodec.lean`
+(codecs) and `Py/Lemmas.lean` (`replace_roundtrip`).  The model (`Model/Files.lean`) follows the code
+with the fixes `C15-close` and `C15-a` applied.
 
 Vocabulary (defined in `Proofs/Files.lean`):
 * `SaveMode m` — `m` is one of `t`, `b`, `wt`, `wb`, `at`; `TextMode m` — `t`, `wt`, `at`;
 * `isStdEol eol` — `eol` is `"\r\n"`, `"\n"` or `"\r"`; every other EOL (LFCR, custom) takes the manual path;
 * `Codec.Good c` — the assumptions on the encoding: stateless character-wise encoder, ASCII-compatible,
-  `dec (enc s) = s`.  `c.encode s = c.bom ++ enc s` is Python's `s.encode(encoding)`;
+  `dec (enc s) = s`.  `c.encode s = c.bom ++ enc s` is Python's `s.encode(encoding)`.  It is a theorem for
+  the four codec models `utf8`, `utf8sig`, `latin1`, `cp1252` (`C15_codecs_good`);
 * `c.enc s = some y` — the text `s` is encodable (no `UnicodeEncodeError`) and `y` are its bytes;
 * `Fresh fs p m` — the previous content of the file plays no role: a truncating mode, or `at` on a missing file;
 * `EolDisjoint eol text` — the EOL is not empty and its characters other than `'\n'` do not occur in the text;
